@@ -153,6 +153,43 @@ func coldPass(scope string) int {
 			}
 		}
 	}
+	// stage 2: fresh shared values (lazily filled fields still cold), built once, then every
+	// operation from 8 goroutines at once on those SAME values, again without a warm-up
+	sh2 := sc.Setup()
+	res2 := make([][]string, G)
+	start2 := make(chan struct{})
+	for g := 0; g < G; g++ {
+		wg.Add(1)
+		g := g
+		go func() {
+			defer wg.Done()
+			<-start2
+			out := make([]string, len(sc.Ops))
+			// half of the goroutines walk the operations backwards, so that first touches of the
+			// same value come from different operations
+			for k := range sc.Ops {
+				i := k
+				if g%2 == 1 {
+					i = len(sc.Ops) - 1 - k
+				}
+				out[i] = scen.SafeRun(sc.Ops[i], sh2)
+			}
+			res2[g] = out
+		}()
+	}
+	close(start2)
+	wg.Wait()
+	for i, op := range sc.Ops {
+		want := scen.SafeRun(op, sh)
+		for g := 0; g < G; g++ {
+			if res2[g][i] != want {
+				bad++
+				if bad <= 5 {
+					fmt.Printf("MISMATCH (cold, shared values) scope=%s op=%q got=%q want=%q\n", scope, op.Name, res2[g][i], want)
+				}
+			}
+		}
+	}
 	if bad > 0 {
 		return 3
 	}
